@@ -326,6 +326,7 @@ class UF:
         s.axioms = []
         s.sign_normalise = sign_normalise
         s.ops_built = 0
+        s.nan_ok = None        # None: any double may be NaN; a set of term ids: only those may be NaN (others assumed not NaN)
     def const(s, f): return f
     def fresh(s, name): return z3.BitVec(name, 64)
     def is_conc(s, v): return isinstance(v, float)
@@ -350,10 +351,25 @@ class UF:
         if isinstance(a, float): return -a
         # sign bit flip is exact in IEEE: interpret it
         return a ^ z3.BitVecVal(1 << 63, 64)
+    def isnan_bv(s, a):
+        a = s.z(a)
+        if s.nan_ok is not None and not (z3.is_bv_value(a) or a.get_id() in s.nan_ok):
+            return z3.BoolVal(False)         # stated assumption of the harness: this value is not NaN
+        return z3.And(z3.Extract(62, 52, a) == 0x7ff, z3.Extract(51, 0, a) != 0)
+    def iszero_bv(s, a):
+        return z3.Extract(62, 0, s.z(a)) == 0
     def fcmp(s, pred, a, b):
         if isinstance(a, float) and isinstance(b, float): return _fcmp_conc(pred, a, b)
-        if pred == 'uno' and _isz3(a) and _isz3(b) and a.eq(b):
-            return s.fn('isnan', 1, z3.BoolSort())(a)
+        # (un)ordered-ness and equality are definable on the bit patterns: interpret them exactly (IEEE-754)
+        if pred in ('uno', 'ord', 'oeq', 'une', 'one', 'ueq'):
+            un = z3.Or(s.isnan_bv(a), s.isnan_bv(b))
+            if pred == 'uno': return z3.simplify(un)
+            if pred == 'ord': return z3.simplify(z3.Not(un))
+            eq = z3.Or(s.z(a) == s.z(b), z3.And(s.iszero_bv(a), s.iszero_bv(b)))
+            if pred == 'oeq': return z3.simplify(z3.And(z3.Not(un), eq))
+            if pred == 'une': return z3.simplify(z3.Or(un, z3.Not(eq)))
+            if pred == 'one': return z3.simplify(z3.And(z3.Not(un), z3.Not(eq)))
+            return z3.simplify(z3.Or(un, eq))
         return s.fn('fcmp_' + pred, 2, z3.BoolSort())(s.z(a), s.z(b))
     def sitofp(s, v, bits, signed=True):
         if isinstance(v, int): return Conc().sitofp(v, bits, signed)
